@@ -5,6 +5,7 @@ package main
 import (
 	"fmt"
 	"go/types"
+	"sort"
 	"strings"
 
 	"golang.org/x/tools/go/ssa"
@@ -230,9 +231,9 @@ var (
 	muAVLArg   = &Mu{FlipIndex: "Children", FlipArg: map[string]bool{"bottom": true, "walk1": true}} // direction argument or, written out, the child index
 	muIterTree = &Mu{Fields: swapMap("Left", "Right"), Names: swapMap("Left", "Right", "Next", "Prev", "Begin", "End"), Consts: swapMap("0:position", "2:position"),
 		FlipIndex: "Children", FlipArg: map[string]bool{"bottom": true, "walk1": true}}
-	muFirstLast = &Mu{Names: swapMap("Begin", "End", "Next", "Prev", "First", "Last")}
+	muFirstLast  = &Mu{Names: swapMap("Begin", "End", "Next", "Prev", "First", "Last")}
 	muNextPrevTo = &Mu{Names: swapMap("Next", "Prev", "NextTo", "PrevTo")}
-	muNames    = &Mu{Names: swapMap("Left", "Right", "left", "right")}
+	muNames      = &Mu{Names: swapMap("Left", "Right", "left", "right")}
 )
 
 func ruleR10(c *Ctx) *RuleResult {
@@ -280,6 +281,42 @@ func ruleR10(c *Ctx) *RuleResult {
 		var f *ssa.Function
 		if n := typ(tk); n != nil {
 			f = methodsOf(p, n)[a]
+		}
+		if f == nil {
+			// a case of a fix-up chain that was folded into the chain's entry point: its two arms are arms of that
+			// function now, and the whole function must be its own mirror image
+			for _, fam := range chainFamilies {
+				n := typ(tk)
+				if n == nil || !strings.HasPrefix(a, fam.prefix) {
+					continue
+				}
+				ms := methodsOf(p, n)
+				if ms[fam.entry] == nil {
+					continue
+				}
+				var names []string
+				for nm := range ms {
+					if strings.HasPrefix(nm, fam.prefix) {
+						names = append(names, nm)
+					}
+				}
+				sort.Strings(names)
+				var all []string
+				for _, nm := range names {
+					ok, und, facts := selfCheck(c, ms[nm], mu, orientedOnly)
+					switch {
+					case und:
+						r.undecided(key, clause, p.FuncPos(ms[nm]), nm+": "+facts)
+						return
+					case !ok:
+						r.bad(key, clause, p.FuncPos(ms[nm]), "(case "+a+" folded into the chain) "+nm+": "+facts)
+						return
+					}
+					all = append(all, nm)
+				}
+				r.ok(key, clause, p.FuncPos(ms[fam.entry]), "case "+a+" is not a function of its own in this tree; every remaining member of the chain is its own mirror image: "+strings.Join(all, ", "))
+				return
+			}
 		}
 		if f == nil {
 			r.undecided(key, clause, "-", "anchored method not found")
